@@ -119,14 +119,18 @@ func session(name string, nUser, nHandler, m int, pacing string, rng *rand.Rand)
 	}
 	mk := func(sn string, i int) issue {
 		pad := rng.Intn(40)
-		if m := i % 9; m != 1 && m != 2 && rng.Intn(10) == 0 {
+		if m := i % 11; m != 1 && m != 2 && m != 9 && m != 10 && rng.Intn(10) == 0 {
 			// a long line (the commands that do not split): around the 512-byte mark, or far beyond it
 			if pad = 440 + rng.Intn(120); rng.Intn(3) == 0 {
 				pad = 600 + rng.Intn(2400)
 			}
 		}
-		tag := fmt.Sprintf("s=%s;i=%d;%s", sn, i, strings.Repeat("x", pad))
-		switch i % 9 {
+		tag := fmt.Sprintf("s=%s;i=%d;100%%;%%d%%s;%s", sn, i, strings.Repeat("x", pad))
+		switch i % 11 {
+		case 9:
+			return issue{"PRIVMSG #c :" + tag, func(c *client.Conn) { c.Privmsgln("#c", tag) }}
+		case 10:
+			return issue{"PRIVMSG #c :" + tag, func(c *client.Conn) { c.Privmsgf("#c", "%s", tag) }}
 		case 0:
 			return issue{"PRIVMSG #c :" + tag, func(c *client.Conn) { c.Raw("PRIVMSG #c :" + tag) }}
 		case 1:
